@@ -110,6 +110,11 @@ func main() {
 					o.Id = ""
 				}
 				o.Fact = genFact(g)
+			case k == 7 && g.Intn(3) == 0:
+				// an overwrite that indexed state refuses (a rule whose `when` holds an
+				// unsortable array): what is stored and searchable must not change
+				o.Op = "refusedOverwrite"
+				o.Id = ids[g.Intn(len(ids))]
 			case k < 10:
 				o.Op = "rem"
 				o.Id = ids[g.Intn(len(ids))]
@@ -242,6 +247,16 @@ func step(r *rep.Report, locs map[string]*core.Location, m *ref.Loc, run *[]op, 
 		}
 		m.Put(wantId, o.Fact)
 		written[wantId] = true
+	case "refusedOverwrite":
+		r.Case(written[o.Id], "refused"+ref.Canon(wit(nil)))
+		r.Count("refused_overwrites", 1)
+		rule := core.Map{"when": map[string]interface{}{"pattern": map[string]interface{}{"q": []interface{}{"x", 1.0}}}, "action": map[string]interface{}{"code": "1"}}
+		if _, err := locs["indexed"].AddRule(drv.Ctx(), o.Id, rule); err == nil {
+			// accepted after all: mirror it so that the lock-step model stays valid
+			locs["linear"].AddRule(drv.Ctx(), o.Id, core.Map(ref.CloneMap(map[string]interface{}(rule))))
+			m.Put(o.Id, map[string]interface{}{"rule": ref.Clone(map[string]interface{}(rule))})
+			written[o.Id] = true
+		}
 	case "rem":
 		r.Case(written[o.Id], "rem"+ref.Canon(wit(nil)))
 		for _, k := range drv.Kinds {
